@@ -202,6 +202,10 @@ func checkC17(c *Check) {
 		c.Hold("R4c", kf[1]+":ace-prefix-case", fi.Decl.Pos(), msg == "", msg)
 	}
 
+	// ---- R9: the address helpers are total – "for all strings" includes the ones that make a slice empty
+	c.Rule("R9", "framework/address: every index / slice operation the compiler could not prove in bounds is discharged by a dominating guard (the validators and converters are called on unvalidated input – a panic in them is a remote crash, or a check that silently 'passes')", 0)
+	boundsRule(c, "R9", []string{"framework/address"})
+
 	// ---- R6: ASCII/Unicode conversions are conversions, not key functions
 	c.Rule("R6", "ToASCII / ToUnicode change only the encoding of the domain (IDNA, plus NFC for the Unicode form): no case folding, trimming or key normalisation, local part untouched – otherwise the conversions do not round-trip", 2)
 	for _, name := range []string{"ToASCII", "ToUnicode"} {
